@@ -81,7 +81,8 @@ def finish(pid, tier, seed, E, results, t0, extra=None):
         )
         if r.get("sample"):
             samples.append(r["sample"])
-        if len(f_obs) == 0:
+        if len(f_obs) == 0 and not r.get("unsupported"):
+            # vacuity guard; a contract all of whose paths hit an unsupported construct is UNDECIDED (reported as such), not a crash
             engine.append("%s: zero obligations generated" % r["key"])
         for o in f_obs:
             total += 1
